@@ -62,6 +62,78 @@ class E2ECheck(Check):
         return e2e_candidates(case)
 
 
+class SystematicMixin:
+    """Adds exhaustive-up-to-a-bound exploration over the fixed scenario
+    matrix of vt/systematic.py (single fault sites / single preemptions;
+    pairs in the thorough tier)."""
+    systematic = 'faults'        # or 'preempt'
+    systematic_kinds = None
+
+    def extra_shards(self, tier):
+        return 16
+
+    def _run_plain(self, case):
+        return self.run(case)
+
+    def extra_shard(self, tier, seed, shard, nshards, stats):
+        from .. import systematic
+        pairs = tier == 'thorough'
+        if self.systematic == 'faults':
+            it = systematic.single_fault_cases(
+                shard, nshards, self._run_plain, self.systematic_kinds,
+                pairs=pairs)
+        else:
+            it = systematic.single_preemption_cases(
+                shard, nshards, self._run_plain, pairs=pairs)
+        for name, case in it:
+            out = E2ECheck.execute(self, case)
+            out['cls'] = [f'systematic:{name}']
+            stats.add(case, out, max_samples=1)
+
+    def coverage_extra(self, tier, results):
+        what = ('every single fault site (before/after effect, each fault '
+                'kind) of every scenario of the fixed matrix x 3 schedules'
+                if self.systematic == 'faults' else
+                'every schedule with one preemption for every scenario of '
+                'the fixed matrix (plain, +cancel with re-entrant on_done, '
+                '+limits of one with shutdown(cancel))')
+        if tier == 'thorough':
+            what += '; thorough: also pairs'
+        return {'exhaustive': True, 'exhaustive_bound': what,
+                'explanation': 'exhaustive: true refers to this systematic '
+                               'sub-domain; the Hypothesis part is sampled'}
+
+
+class RealScaleMixin:
+    """Adds a thin real-scale class: unscaled ChunksizeAdjuster and
+    MiB-sized payloads (a fixed number of cases per run)."""
+    real_types = ('upload', 'download', 'copy')
+    real_cases = {'quick': 48, 'thorough': 480}
+
+    def extra_shards(self, tier):
+        return 16
+
+    def extra_shard(self, tier, seed, shard, nshards, stats):
+        parent = super()
+        if hasattr(parent, 'extra_shard'):
+            parent.extra_shard(tier, seed, shard, nshards, stats)
+        import hypothesis
+        from hypothesis import given, settings, HealthCheck, Phase
+        from ..runner import derive_seed
+        n = max(1, self.real_cases[tier] // nshards)
+
+        @hypothesis.seed(derive_seed(seed, shard, self.id + 'real'))
+        @settings(max_examples=n, database=None, deadline=None,
+                  phases=[Phase.generate],
+                  suppress_health_check=list(HealthCheck))
+        @given(gen.real_scale_cases(self.real_types))
+        def drive(case):
+            out = E2ECheck.execute(self, case)
+            out['cls'] = ['real-scale:' + case['transfers'][0]['type']]
+            stats.add(case, out, max_samples=0)
+        drive()
+
+
 class LegacyMixin:
     """Adds the legacy S3Transfer front-end (real threads, schedule-
     independent oracles) as a second class of cases."""
@@ -138,8 +210,9 @@ def base_classes(R):
     return cls
 
 
-class C04(E2ECheck):
+class C04(SystematicMixin, E2ECheck):
     id = 'C04'
+    systematic = 'preempt'
     oracle = staticmethod(oracles.oracle_c04)
     quick_examples = 24000
     thorough_examples = 600000
@@ -185,8 +258,9 @@ def boundary_size(R, r):
     return n in (0, t - 1, t, t + 1) or (c and (n % c in (0, 1, c - 1)))
 
 
-class C01(LegacyMixin, E2ECheck):
+class C01(RealScaleMixin, LegacyMixin, E2ECheck):
     id = 'C01'
+    real_types = ('upload', 'copy')
     legacy_ops = ('upload',)
     legacy_props = ('C01',)
     oracle = staticmethod(oracles.oracle_c01)
@@ -225,8 +299,9 @@ class C01(LegacyMixin, E2ECheck):
         return cls, nt
 
 
-class C02(LegacyMixin, E2ECheck):
+class C02(RealScaleMixin, LegacyMixin, E2ECheck):
     id = 'C02'
+    real_types = ('download',)
     legacy_ops = ('download',)
     legacy_props = ('C02',)
     oracle = staticmethod(oracles.oracle_c02)
@@ -260,8 +335,9 @@ class C02(LegacyMixin, E2ECheck):
         return cls, nt
 
 
-class C03(E2ECheck):
+class C03(SystematicMixin, E2ECheck):
     id = 'C03'
+    systematic = 'faults'
     oracle = staticmethod(oracles.oracle_c03)
     quick_examples = 32000
     thorough_examples = 600000
@@ -295,8 +371,11 @@ class C03(E2ECheck):
         return cls, nt
 
 
-class C05(LegacyMixin, E2ECheck):
+class C05(SystematicMixin, LegacyMixin, E2ECheck):
     id = 'C05'
+    systematic = 'faults'
+    systematic_kinds = ('upload-path-multi', 'upload-seek-multi',
+                        'upload-nonseek-multi', 'copy-multi')
     legacy_ops = ('upload',)
     legacy_props = ('C05',)
     legacy_faults = True
@@ -338,8 +417,10 @@ class C05(LegacyMixin, E2ECheck):
         return cls, nt
 
 
-class C06(LegacyMixin, E2ECheck):
+class C06(SystematicMixin, LegacyMixin, E2ECheck):
     id = 'C06'
+    systematic = 'faults'
+    systematic_kinds = ('download-path',)
     legacy_ops = ('download',)
     legacy_props = ('C06',)
     legacy_faults = True
@@ -582,7 +663,8 @@ class C18(E2ECheck):
         'body_scripts': True, 'stream_scripts': True,
         'stream_hard_faults': True,
         'fault_sites': ALL_FAULT_SITES, 'max_faults': 2, 'cancels': 2,
-        'fresh': True,
+        'fresh': True, 'shared_extra': True,
+        'rccs': ['when_required', 'when_supported'],
         'ends': ['shutdown', 'shutdown', 'with', 'shutdown_cancel',
                  'with_exc'],
     }
